@@ -7,20 +7,22 @@ PROP = dict(
                        "stop_releases_workers (every cancelled worker returned and unsubscribed)",
                        "paused_takes_no_work / resume_wakes_all (a live worker is in the acknowledging send iff IsPaused)",
                        "pause_reaches_all / resume_wakes_all (a round of Pause calls leaves the manager paused, a round of Resume calls unpaused)",
-                       "no_panic: no PauseCh is ever closed (Pause may still be about to send on it)"]),
+                       "no_panic: no PauseCh is ever closed (Pause may still be about to send on it)",
+                       "pause_sticks (a Pause invoked while every Resume in progress is already collecting, with no later Resume, leaves the manager paused and the live workers acknowledging)"]),
         dict(driver="pauseconc", binary="zpause", quick=1200, thorough=20000, shard=400,
              monitors=["calls_complete (no Pause/Resume call in progress once nothing moves)",
                        "no_panic (no send on a closed channel; quiescence reached)",
                        "stop_releases_workers (every cancelled worker returned and unsubscribed)",
                        "paused_takes_no_work / resume_wakes_all (a live worker is in the acknowledging send iff IsPaused)",
                        "pause_reaches_all / resume_wakes_all (a round of Pause calls leaves the manager paused, a round of Resume calls unpaused)",
-                       "no_panic: no PauseCh is ever closed (Pause may still be about to send on it)"]),
+                       "no_panic: no PauseCh is ever closed (Pause may still be about to send on it)",
+                       "pause_sticks (a Pause invoked while every Resume in progress is already collecting, with no later Resume, leaves the manager paused and the live workers acknowledging)"]),
     ],
     partial="The population of subscribers is fixed in the model (the stages subscribe at start-up, before any pause; a subscriber that joins "
             "while paused gets no token and is waited for by the next Resume - not modelled). 'Blocked forever' is stated without fairness: "
             "from every reachable state system steps alone stop within mu(s) steps in a state with no pending call; a call can still be "
-            "delayed for as long as other controllers keep invoking new calls (mutex fairness is the Go runtime's). A work item is one atomic "
-            "label (a worker stuck inside an item is C01's subject). The callers (disk / WARC-queue watcher loops, TUI) are represented by "
+            "delayed for as long as other controllers keep invoking new calls (mutex fairness is the Go runtime's). A work item is two labels (taken / passed on) and "
+            "always ends by itself or by cancellation (a worker stuck inside an item is C01's subject). The callers (disk / WARC-queue watcher loops, TUI) are represented by "
             "arbitrary invocation orders, not modelled line by line.",
     assumptions=["Go channel, select, sync.Mutex, sync.WaitGroup, sync.Map.Range and atomic.Bool semantics as modelled in Pause/PauseLts.v (one label per operation; Range = snapshot of the keys, presence re-checked at each visit)",
                  "subscriptions happen before the first Pause (start-up order of startPipeline)",
@@ -30,7 +32,7 @@ PROP = dict(
                "acknowledgement), deadlock freedom at every reachable state, and a strictly decreasing measure for system steps (valid for every "
                "variant of the code). Witness lemmas refute the code as found (3 defects), each single-repair omission and two tempting repair "
                "candidates. Model tied to the real pause package driven by REAL stage worker goroutines: after every invocation (sequential "
-               "driver: exact prediction; concurrent driver: monitors) the process is observed at true quiescence, decided from a "
+               "driver: exact prediction, except where a Pause and a Resume both wait for the mutex; concurrent driver: monitors) the process is observed at true quiescence, decided from a "
                "stop-the-world goroutine dump, so a call that never returns is detected without timeouts.",
     technique="Coq proof (LTS + invariant + measure) with differential/monitor correspondence on the real goroutines",
 )
